@@ -12,6 +12,8 @@ from fractions import Fraction
 
 import numpy as np
 
+from . import shapes as S
+
 from . import rfa_common as R
 from .core import fmt, fmt_list, fmt_ints, fmt_opt, parse_rats, frac, err_kind, close, vclose, exact, floats
 
@@ -104,11 +106,41 @@ def gen_reshape_op(rng, allow=RESHAPE):
     if k == "smooth":
         return {"op": k, "s": rng.choice([0.0, 0.5, 1.0, 10.0])}
     if k == "trend":
+        if rng.random() < 0.2:
+            return {"op": k, "coef": ["0", "1"], "normalized": rng.random() < 0.3, "view": True}
         return {"op": k, "coef": [str(rng.dyadic(-8, 8, 4)) for _ in range(rng.randint(1, 3))],
                 "normalized": rng.random() < 0.5}
     if k == "noise":
         return {"op": k, "snr": rng.choice([10, 20, 3.0]), "db": rng.random() < 0.5, "seed": rng.randint(0, 10 ** 6)}
     raise ValueError(k)
+
+
+FAIL_KINDS = ["recreate_bad_kwarg", "recreate_small_n", "interp_bad_method", "match_bad_rule", "match_bad_strategy",
+              "interp_grid_period", "interp_grid_ends", "trunc_inverted", "trunci_bounds"]
+
+
+def gen_fail_op(rng):
+    """a request that must be refused; the program goes on afterwards (an application that catches the error)"""
+    return {"op": "fail", "kind": rng.choice(FAIL_KINDS), "n": rng.randint(2, 4)}
+
+
+def gen_poke_op(rng):
+    """the caller edits the arrays `get()` handed out in place (same object, new contents)"""
+    return {"op": rng.choice(["poke_x", "poke_x", "poke_y"]), "v": str(rng.dyadic(-8, 8, 2) or 1)}
+
+
+def sprinkle(rng, ops, p_fail=0.25, p_poke=0.15):
+    """insert failing requests and in-place edits at random places of a program"""
+    out = []
+    for op in ops:
+        if rng.random() < p_fail:
+            out.append(gen_fail_op(rng))
+        if rng.random() < p_poke:
+            out.append(gen_poke_op(rng))
+        out.append(op)
+    if rng.random() < p_fail:
+        out.insert(rng.randint(0, len(out)), gen_fail_op(rng))
+    return out
 
 
 # ---------------------------------------------------------------------------------------------
@@ -164,11 +196,11 @@ def build(c):
         if c.get("int_y"):
             cy = [int(v) for v in y]
     else:
-        cx, cy = np.array(floats(x)), np.array(floats(y))
+        cx, cy = S.arr(floats(x)), S.arr(floats(y))
         if c.get("int_y"):
-            cy = np.array([int(v) for v in y])
+            cy = S.arr([int(v) for v in y])
         if c.get("int_x"):
-            cx = np.array([int(v) for v in x])
+            cx = S.arr([int(v) for v in x])
     if c.get("x_none"):
         cx = None
     line = f"winit {fmt_opt(None if cx is None else x)} {fmt_list(y)}"
@@ -194,6 +226,56 @@ def apply_op(w, op, rng_state=None):
             raise Skip()
         if k in ("recreate", "repeat") and len(x) * (op.get("n", 1) * op.get("r", 1)) > 4000:
             raise Skip()
+    if k == "fail":
+        from traffic_weaver.rfa import LinearFixedRFA
+        kind = op["kind"]
+        xs_ = [float(v) for v in x]
+        op["_raised"] = None
+        try:
+            with warnings.catch_warnings():
+                warnings.simplefilter("ignore")
+                if kind == "recreate_bad_kwarg":
+                    w.recreate_from_average(op.get("n", 2), rfa_class=LinearFixedRFA, beta=0.5)
+                elif kind == "recreate_small_n":
+                    w.recreate_from_average(1)
+                elif kind == "interp_bad_method":
+                    w.interpolate(n=7, method="quadratic")
+                elif kind == "match_bad_rule":
+                    # the reference rule is looked at before anything else (the target rule only once a window exists)
+                    w.integral_match(reference_function_integral_method="simpson")
+                elif kind == "match_bad_strategy":
+                    w.integral_match(fixed_points_finding_strategy="nearest")
+                elif kind == "interp_grid_period":
+                    lo, hi = (xs_[0], xs_[-1]) if len(xs_) >= 2 else (0.0, 1.0)
+                    w.interpolate(new_x=np.linspace(lo - 3.0, hi + (hi - lo) + 1.0, 2 * len(xs_) + 1), period=(hi - lo) or 1.0)
+                elif kind == "interp_grid_ends":
+                    lo, hi = (xs_[0], xs_[-1]) if len(xs_) >= 2 else (0.0, 1.0)
+                    w.interpolate(new_x=np.linspace(lo + (hi - lo) / 4 + 0.25, hi, len(xs_) + 2))
+                elif kind == "trunc_inverted":
+                    lo, hi = (xs_[0], xs_[-1]) if len(xs_) >= 2 else (0.0, 1.0)
+                    w.truncate_by_value(hi + 1.0, lo - 1.0)
+                elif kind == "trunci_bounds":
+                    w.truncate_by_index(0, 10 ** 6)
+                else:
+                    raise ValueError(kind)
+        except Exception as e:  # noqa
+            op["_raised"] = err_kind(e)
+        return "wop shiftx 0"       # the model's state must be what it was
+    if k in ("poke_x", "poke_y"):
+        v = Fraction(op["v"])
+        name = k[-1]
+        gx, gy = w.get()
+        tgt = gx if name == "x" else gy
+        others = [w.reference_x, w.reference_y, w.original_x, w.original_y, gy if name == "x" else gx]
+        others += list(getattr(w, "_verif_caller", [])) + [g for (g, _) in getattr(w, "_verif_handed_in", [])]
+        in_place = (isinstance(tgt, np.ndarray) and tgt.dtype == np.float64 and tgt.flags.writeable
+                    and not any(isinstance(o, np.ndarray) and np.shares_memory(tgt, o) for o in others))
+        op["_in_place"] = bool(in_place)
+        if in_place:
+            tgt += float(v)            # the very array object the Weaver holds now has other contents
+        else:
+            setattr(w, name, np.asarray(tgt, dtype=float) + float(v))     # the public field is assigned a new array
+        return f"wpoke {fmt(v)} 0" if name == "x" else f"wpoke 0 {fmt(v)}"
     if k == "append":
         w.append_one_sample(make_periodic=op["periodic"])
         return f"wop append {1 if op['periodic'] else 0}"
@@ -364,7 +446,7 @@ def apply_op(w, op, rng_state=None):
             if not hasattr(w, "_verif_handed_in"):
                 w._verif_handed_in = []
             w._verif_handed_in.append((g, g.copy()))
-        w.interpolate(new_x=g, method=m)
+        w.interpolate(new_x=g, method=m, **op.get("kwargs", {}))
         ext = "-" if m in ("linear", "constant") else fmt_list([frac(v) for v in w.y])
         return f"wop interpx {gl} {m} {ext}"
     if k == "smooth":
@@ -383,7 +465,11 @@ def apply_op(w, op, rng_state=None):
             for cc in reversed(cs):
                 acc = float(cc) + t * acc
             return acc
-        w.trend(f, normalized=op["normalized"])
+        if op.get("view") and cs == [Fraction(0), Fraction(1)]:
+            # the identity trend, written so that it hands back a view of its argument when given an array
+            w.trend(lambda t: np.asarray(t).reshape(np.shape(t)), normalized=op["normalized"])
+        else:
+            w.trend(f, normalized=op["normalized"])
         return line
     if k == "noise":
         n = len(w.y)
@@ -404,6 +490,54 @@ def apply_op(w, op, rng_state=None):
     raise ValueError(k)
 
 
+def run_query(w, q):
+    """a read-only slice request: returns (model line, recorded step)"""
+    if q["q"] == "slice_i":
+        line = f"wslicei {q['start']} {'none' if q['stop'] is None else q['stop']} {q['step']}"
+    else:
+        xs = np.asarray(w.x, dtype=float)
+
+        def tok(v):
+            if v is None:
+                return None, "none"
+            if isinstance(v, str) and v.startswith("@"):
+                i = int(v[1:])
+                if len(xs) == 0:
+                    return 0.0, "0"
+                if not -len(xs) <= i < len(xs):
+                    i = len(xs) - 1          # the series became shorter than the request assumed: its last sample
+                return float(xs[i]), f"@{i}"
+            return float(Fraction(v)), fmt(Fraction(v))
+        a, ta = tok(q["start"])
+        b, tb = tok(q["stop"])
+        memo = getattr(w, "_verif_bounds", None)
+        if memo is None:
+            memo = {}
+            try:
+                w._verif_bounds = memo
+            except Exception:  # noqa
+                pass
+        key = (str(q["start"]), str(q["stop"]))
+        q.pop("_lit", None)
+        if q.get("again") and key in memo:
+            # the very same NUMBERS as in the earlier request (not the same positions)
+            a, b = memo[key]
+            ta = "none" if a is None else fmt(Fraction(a))
+            tb = "none" if b is None else fmt(Fraction(b))
+            q["_lit"] = [a, b]
+        else:
+            memo[key] = (a, b)
+        line = f"wslicev {ta} {tb} {q['step']}"
+    try:
+        if q["q"] == "slice_i":
+            r = w.slice_by_index(q["start"], q["stop"], q["step"])
+        else:
+            r = w.slice_by_value(a, b, q["step"])
+        return line, {"query": [[float(v) for v in r[0]], [float(v) for v in r[1]]]}
+    except Exception as e:  # noqa
+        return line, {"query_err": err_kind(e)}
+
+
 def run_program(c):
     """returns {'steps': [...], 'lines': [...]}; each step: {'ok'| 'err', 'state'}"""
     ctor, caller, line0 = build(c)
@@ -414,9 +548,19 @@ def run_program(c):
     except Exception as e:  # noqa
         return {"steps": [{"err": err_kind(e)}], "lines": lines}
     steps.append({"ok": True, "state": snap(w, caller)})
+    try:
+        w._verif_caller = [a for a in caller if isinstance(a, np.ndarray)]
+    except Exception:  # noqa
+        pass
     executed = []
     for op in c["ops"]:
         op.pop("_line", None)
+        if op["op"] == "query":
+            line, step = run_query(w, op["query"])
+            executed.append(op)
+            lines.append(line)
+            steps.append(step)
+            continue
         try:
             try:
                 line = apply_op(w, op)
@@ -425,7 +569,11 @@ def run_program(c):
             finally:
                 pass
             executed.append(op)
-            steps.append({"ok": True, "state": snap(w, caller)})
+            st = {"ok": True, "state": snap(w, caller)}
+            if op["op"] == "fail":
+                st["fail"] = op["kind"]
+                st["raised"] = op.get("_raised")
+            steps.append(st)
             lines.append(line)
         except Exception as e:  # noqa
             executed.append(op)
@@ -434,29 +582,9 @@ def run_program(c):
             break
     c["ops"] = executed + [o for o in c["ops"] if o not in executed and False]
     for q in c.get("queries", []):
-        if q["q"] == "slice_i":
-            lines.append(f"wslicei {q['start']} {'none' if q['stop'] is None else q['stop']} {q['step']}")
-        else:
-            xs = np.asarray(w.x, dtype=float)
-
-            def tok(v):
-                if v is None:
-                    return None, "none"
-                if isinstance(v, str) and v.startswith("@"):
-                    i = int(v[1:])
-                    return float(xs[i]), v
-                return float(Fraction(v)), fmt(Fraction(v))
-            a, ta = tok(q["start"])
-            b, tb = tok(q["stop"])
-            lines.append(f"wslicev {ta} {tb} {q['step']}")
-        try:
-            if q["q"] == "slice_i":
-                r = w.slice_by_index(q["start"], q["stop"], q["step"])
-            else:
-                r = w.slice_by_value(a, b, q["step"])
-            steps.append({"query": [[float(v) for v in r[0]], [float(v) for v in r[1]]]})
-        except Exception as e:  # noqa
-            steps.append({"query_err": err_kind(e)})
+        line, step = run_query(w, q)
+        lines.append(line)
+        steps.append(step)
     return {"steps": steps, "lines": lines}
 
 
@@ -465,6 +593,14 @@ def run_program(c):
 # ---------------------------------------------------------------------------------------------
 
 KEYS = ["x", "y", "rx", "ry", "ox", "oy"]
+
+
+def accepted_invalid(io):
+    """oracle shared by the session properties: a request that must be refused went through"""
+    for i, st in enumerate(io.get("steps", [])):
+        if st.get("fail") and st.get("raised") is None:
+            return f"step {i}: the invalid request '{st['fail']}' was accepted instead of being refused"
+    return None
 
 
 def parse_state(fields):
@@ -487,6 +623,8 @@ def compare_program(c, io, mo):
             if not (vclose(st["query"][0], parse_rats(f[0])) and vclose(st["query"][1], parse_rats(f[1]))):
                 return f"step {i} (query): slices differ: impl {st['query'][0][:5]} model {f[0][:40]}"
             continue
+        if st.get("fail") and st.get("raised") is None:
+            return f"step {i}: the invalid request '{st['fail']}' was accepted"
         if ans == "unmodelled":
             return None      # windows outside the closed-form model (float artefact of the adaptive split): stop here
         if "err" in st:
